@@ -555,10 +555,15 @@ class XsdAnyElement(XsdWildcard, ParticleMixin,
 
         if validation != 'skip' and self.process_contents == 'strict':
             context.validation_error(validation, self, reason, obj)
-
-        xsd_element = self.builders.create_element(
-            obj.tag, self.maps.validator, parent=self, form='unqualified'
-        )
+            xsd_element = self.builders.create_element(
+                obj.tag, self.maps.validator, parent=self, form='unqualified'
+            )
+        else:
+            # An element without a declaration is laxly assessed: xsi:nil is not checked
+            xsd_element = self.builders.create_element(
+                obj.tag, self.maps.validator, self,
+                nillable='true', form='unqualified'
+            )
         return xsd_element.raw_decode(obj, validation, context)
 
     def raw_encode(self, obj: tuple[str, ElementType], validation: str,
